@@ -1,5 +1,5 @@
-"""Registry: per property, the Lean modules holding its theorems, the correspondence runs, and the
-implementation-side extras."""
+"""Registry: per property, the Lean modules holding its theorems, the correspondence runs
+(configuration, sanitizer, suite, harness arguments) and the implementation-side extras."""
 from . import build as B
 from . import suites as S
 
@@ -10,6 +10,132 @@ def n(tier, q, t):
     return q if tier == Q else t
 
 
+SC = B.SMALL_CACHE                       # 4 KiB / 32 KiB / 64 KiB: recursive regimes start at ~260 rows
+SC_NOSSE = dict(B.SMALL_CACHE, sse2=0)
+DEF = B.DEFAULT_CFG
+DEF_NOSSE = dict(B.DEFAULT_CFG, sse2=0)
+MID = dict(B.DEFAULT_CFG, l1=32768, l2=262144, l3=1048576)
+ASAN = 'address,undefined'
+
+
+def mk(fn, q, t, **kw):
+    def s(g, tier):
+        fn(g, n(tier, q, t), **kw)
+    return s
+
+
+# ---------------------------------------------------------------- C01
+def runs_c01(tier):
+    return [(DEF, None, mk(S.suite_mul, 700, 12000, big=False), []),
+            (SC, None, mk(S.suite_mul, 500, 8000, big=True), []),
+            (SC_NOSSE, ASAN, mk(S.suite_mul, 250, 3000, big=True), [])]
+
+
+def runs_c02(tier):
+    return [(DEF, None, mk(S.suite_echelon, 700, 10000, big=False), []),
+            (SC, None, mk(S.suite_echelon, 400, 6000, big=True), []),
+            (SC_NOSSE, ASAN, mk(S.suite_echelon, 200, 2500, big=True), [])]
+
+
+def runs_c03(tier):
+    return [(DEF, None, mk(S.suite_ple, 700, 10000, big=False), []),
+            (SC, None, mk(S.suite_ple, 400, 6000, big=True), []),
+            (SC, None, mk(S.suite_ple_recursive, 40, 400), []),
+            (SC_NOSSE, ASAN, mk(S.suite_ple, 200, 2500, big=True), [])]
+
+
+def runs_c04(tier):
+    return [(DEF, None, mk(S.suite_trsm, 500, 8000, big=False), []),
+            (SC, None, mk(S.suite_trsm, 200, 3000, big=True), []),
+            (SC_NOSSE, ASAN, mk(S.suite_trsm, 120, 1500, big=True), [])]
+
+
+def runs_c05(tier):
+    return [(DEF, None, mk(S.suite_inverse, 500, 8000, big=False), []),
+            (SC, None, mk(S.suite_inverse, 250, 3000, big=True), []),
+            (SC_NOSSE, ASAN, mk(S.suite_inverse, 120, 1500, big=True), [])]
+
+
+def runs_c06(tier):
+    def s(g, tier, q=500, t=8000, big=False):
+        S.suite_solve(g, n(tier, q, t), big=big, kernel=False)
+    return [(DEF, None, s, []),
+            (SC, None, lambda g, tier: S.suite_solve(g, n(tier, 300, 4000), big=True, kernel=False), []),
+            (SC_NOSSE, ASAN, lambda g, tier: S.suite_solve(g, n(tier, 120, 1500), big=True, kernel=False), [])]
+
+
+def runs_c07(tier):
+    return [(DEF, None, lambda g, tier: S.suite_solve(g, n(tier, 500, 8000), big=False, only_kernel=True), []),
+            (SC, None, lambda g, tier: S.suite_solve(g, n(tier, 300, 4000), big=True, only_kernel=True), []),
+            (SC_NOSSE, ASAN, lambda g, tier: S.suite_solve(g, n(tier, 120, 1500), big=True, only_kernel=True), [])]
+
+
+def runs_c08(tier):
+    return [(DEF, None, mk(S.suite_datamove, 3000, 40000, big=(tier != Q)), []),
+            (DEF_NOSSE, ASAN, mk(S.suite_datamove, 1000, 10000, big=True), [])]
+
+
+def all_ops(g, k, big=False):
+    """every operation family with every operand position a window or not (the placement generator of cases.G)"""
+    S.suite_rowcol(g, 3 * k)
+    S.suite_perm(g, k)
+    S.suite_observers(g, 2 * k)
+    S.suite_datamove(g, 3 * k, big=big)
+    S.suite_mul(g, k, big=big)
+    S.suite_echelon(g, k, big=big)
+    S.suite_ple(g, k, big=big)
+    S.suite_trsm(g, k // 2 + 1, big=big)
+    S.suite_inverse(g, k // 2 + 1, big=big)
+    S.suite_solve(g, k, big=big)
+
+
+def runs_c09(tier):
+    def windows_only(g, tier):
+        g.force_window = True
+        all_ops(g, n(tier, 250, 3000), big=False)
+    def windows_big(g, tier):
+        g.force_window = True
+        all_ops(g, n(tier, 80, 1000), big=True)
+        S.suite_ple_recursive(g, n(tier, 20, 200))
+    return [(DEF, None, windows_only, []), (SC, None, windows_big, []), (SC_NOSSE, ASAN, windows_big, [])]
+
+
+def runs_c10(tier):
+    # the same cases under different heap fills / histories: the model is a pure function, so every run must agree with it
+    def s(g, tier):
+        all_ops(g, n(tier, 120, 1500), big=False)
+    return [(DEF, None, s, ['--fill', '2']), (DEF, None, s, ['--fill', '3']), (DEF, None, s, ['--fill', '4']),
+            (SC, None, s, ['--fill', '4']), (B.thread_safe(DEF), None, s, ['--fill', '2'])]
+
+
+def runs_c11(tier):
+    def s(g, tier):
+        all_ops(g, n(tier, 150, 2000), big=False)
+    def sbig(g, tier):
+        all_ops(g, n(tier, 50, 600), big=True)
+        S.suite_ple_recursive(g, n(tier, 10, 100))
+    def guards(g, tier):
+        S.suite_guards(g, n(tier, 300, 3000))
+    return [(DEF, ASAN, s, ['--leakcheck']), (SC, ASAN, sbig, ['--leakcheck']), (DEF_NOSSE, ASAN, s, ['--leakcheck']),
+            (DEF, None, guards, ['--fork'])]
+
+
+def runs_c12(tier):
+    def s(g, tier):
+        S.suite_mul(g, n(tier, 150, 2000), big=True)
+        S.suite_echelon(g, n(tier, 120, 1500), big=True)
+        S.suite_ple(g, n(tier, 120, 1500), big=True)
+        S.suite_trsm(g, n(tier, 60, 800), big=True)
+        S.suite_inverse(g, n(tier, 60, 800), big=True)
+        S.suite_solve(g, n(tier, 100, 1200), big=True)
+    cfgs = [DEF, SC, SC_NOSSE, MID, B.thread_safe(SC), dict(SC, l1=4096, l2=262144, l3=1048576)]
+    if tier != Q:
+        cfgs += [DEF_NOSSE, B.thread_safe(DEF), dict(DEF, l1=4096), dict(MID, sse2=0), dict(SC, l2=65536),
+                 B.with_openmp(SC), B.with_openmp(DEF)]
+    # identical seeded cases under every configuration (the check driver seeds per run index, so force one seed)
+    return [(c, None, s, [], 'same-seed') for c in cfgs]
+
+
 def runs_c13(tier):
     def s1(g, tier):
         S.suite_rowcol(g, n(tier, 2500, 40000))
@@ -17,30 +143,53 @@ def runs_c13(tier):
     def s2(g, tier):
         S.suite_rowcol(g, n(tier, 800, 8000))
         S.suite_perm(g, n(tier, 500, 5000))
-    out = [(B.DEFAULT_CFG, None, s1, []),
-           (dict(B.SMALL_CACHE, sse2=0), 'address,undefined', s2, [])]
+    out = [(DEF, None, s1, []), (SC_NOSSE, ASAN, s2, [])]
     if tier != Q:
-        out.append((B.SMALL_CACHE, None, s2, []))
+        out.append((SC, None, s2, []))
     return out
+
+
+HOOK2 = ('M4RI_VERIF', 'M4RI_VERIF_MMC_NBLOCKS=2', 'M4RI_VERIF_MZD_T_CACHE_MAX=2')
+
+
+def runs_c14(tier):
+    def small(g, tier):
+        S.alloc_enumerate(g, 2, 2, 65536, n(tier, 4, 6), (100, 6000))
+        S.alloc_random(g, 2, 2, 65536, n(tier, 300, 3000), 60, (100, 6000))
+        S.alloc_random(g, 2, 2, 65536, n(tier, 20, 100), 400, (100, 6000), many_headers=True)
+    def real(g, tier):
+        S.alloc_random(g, 16, 16, 56623104, n(tier, 100, 1000), 300, None)
+        S.alloc_random(g, 16, 16, 56623104, n(tier, 4, 20), 3000, None, many_headers=True)
+    return [(dict(SC, defines=HOOK2), None, small, ['--fork']), (DEF, None, real, ['--fork']),
+            (dict(SC, defines=HOOK2), ASAN, small, ['--fork'])]
 
 
 def runs_c17(tier):
-    def s1(g, tier):
-        S.suite_observers(g, n(tier, 4000, 60000))
-    out = [(B.DEFAULT_CFG, None, s1, []), (B.DEFAULT_CFG, 'address,undefined', s1, [])]
-    return out
+    s1 = mk(S.suite_observers, 4000, 60000)
+    return [(DEF, None, s1, []), (DEF, ASAN, s1, [])]
 
 
-def runs_c08(tier):
-    def s1(g, tier):
-        S.suite_datamove(g, n(tier, 3000, 40000), big=(tier != Q))
-    def s2(g, tier):
-        S.suite_datamove(g, n(tier, 1000, 10000), big=True)
-    return [(B.DEFAULT_CFG, None, s1, []), (dict(B.DEFAULT_CFG, sse2=0), 'address,undefined', s2, [])]
+def runs_c19(tier):
+    return [(DEF, None, lambda g, tier: S.suite_c19(g, tier), []), (DEF_NOSSE, ASAN, lambda g, tier: S.suite_c19(g, tier), [])]
 
+
+TB_W = ['unrolled loops, Duff devices and SSE2 bodies are modelled by the loop they unroll (seen only by the correspondence runs and sanitizers)']
 
 PROPS = {
-    'C13': dict(lean_modules=['M4riProofs.Props.C13'], runs=runs_c13, level='proof'),
-    'C17': dict(lean_modules=['M4riProofs.Props.C17'], runs=runs_c17, level='proof'),
-    'C08': dict(lean_modules=['M4riProofs.Props.C08'], runs=runs_c08, level='proof'),
+    'C01': dict(lean_modules=['M4riProofs.Props.C01'], runs=runs_c01, trusted_base=TB_W),
+    'C02': dict(lean_modules=['M4riProofs.Props.C02'], runs=runs_c02),
+    'C03': dict(lean_modules=['M4riProofs.Props.C03'], runs=runs_c03),
+    'C04': dict(lean_modules=['M4riProofs.Props.C04'], runs=runs_c04),
+    'C05': dict(lean_modules=['M4riProofs.Props.C05'], runs=runs_c05),
+    'C06': dict(lean_modules=['M4riProofs.Props.C06'], runs=runs_c06),
+    'C07': dict(lean_modules=['M4riProofs.Props.C07'], runs=runs_c07),
+    'C08': dict(lean_modules=['M4riProofs.Props.C08'], runs=runs_c08, trusted_base=TB_W),
+    'C09': dict(lean_modules=['M4riProofs.Props.C09'], runs=runs_c09, trusted_base=TB_W),
+    'C10': dict(lean_modules=['M4riProofs.Props.C10'], runs=runs_c10),
+    'C11': dict(lean_modules=['M4riProofs.Props.C11'], runs=runs_c11),
+    'C12': dict(lean_modules=['M4riProofs.Props.C12'], runs=runs_c12),
+    'C13': dict(lean_modules=['M4riProofs.Props.C13'], runs=runs_c13, trusted_base=TB_W),
+    'C14': dict(lean_modules=['M4riProofs.Props.C14'], runs=runs_c14),
+    'C17': dict(lean_modules=['M4riProofs.Props.C17'], runs=runs_c17),
+    'C19': dict(lean_modules=['M4riProofs.Props.C19'], runs=runs_c19),
 }
